@@ -25,7 +25,8 @@ EVIDENCE = {
             'CRTP packets through TcpDriver; the receive side is fragmented by a seeded chunk-size policy.  The uplink '
             'packets are sent by 1-3 application threads (CRTP through TcpDriver.send_packet and raw CPX packets through '
             'cpx.sendPacket on the same link); socket.send() is a scheduling point and the byte stream on the wire must '
-            'parse into an interleaving of the per-thread frame sequences.',
+            'parse into an interleaving of the per-thread frame sequences.  15 % of the downlink frames stall for 0.3-3 s '
+            'in the middle of the frame; socket time-outs (settimeout) are honoured by the fake socket.',
     'directed': 'every composition of the receive chunk sizes for a 12-byte stream carrying three packets (2^11 = 2048 '
                 'fragmentations; every 8th in the quick tier)',
     'real': ['CPXPacket', 'CPXRouter (thread)', 'CPX', 'SocketTransport', 'TcpDriver', '_CPXReceiveThread', 'CRTPPacket'],
@@ -89,6 +90,9 @@ def gen(seed):
     for u in up:
         u['thread'] = rng.randrange(nthreads)
         u['via'] = 'crtp' if mode == 'tcp' and rng.random() < 0.7 else 'cpx'
+        # how the application builds the packet object: constructor, attribute by attribute, or a packet whose payload is
+        # replaced after construction
+        u['build'] = rng.choice(['ctor', 'ctor', 'attrs', 'reassign'])
     return {'seed': seed, 'scenario': 'cpx-' + mode, 'knobs': knobs, 'mode': mode, 'ops': down, 'up': up,
             'chunks': None}
 
@@ -155,6 +159,27 @@ def execute(ctx):
                 sock.feed(fr)
             ctx.obs('fed', p['fn'], len(p['data']))
 
+    def build_cpx(u):
+        how = u.get('build', 'ctor')
+        if how == 'attrs':
+            pk = CPXPacket()
+            pk.function = CPXFunction(u['fn'])
+            pk.destination = CPXTarget(u['dst'])
+            pk.source = CPXTarget(u['src'])
+            pk.data = bytes(u['data'])
+        elif how == 'reassign':
+            pk = CPXPacket(function=CPXFunction(u['fn']), destination=CPXTarget(u['dst']), source=CPXTarget(u['src']),
+                           data=bytes(7))
+            pk.data = bytes(u['data'])
+        else:
+            pk = CPXPacket(function=CPXFunction(u['fn']), destination=CPXTarget(u['dst']), source=CPXTarget(u['src']),
+                           data=bytes(u['data']))
+        pk.lastPacket = u['last']
+        return pk
+
+    def cpx_frame(u):
+        return bytes([((u['src'] & 7) << 3) | (u['dst'] & 7) | (0x40 if u['last'] else 0), u['fn'] & 0x3F]) + bytes(u['data'])
+
     def run_senders(ups, send_one):
         groups = {}
         for u in ups:
@@ -214,9 +239,10 @@ def execute(ctx):
                 feeder.start()
                 # uplink
                 def send_cpx(u):
-                    pk = CPXPacket(function=CPXFunction(u['fn']), destination=CPXTarget(u['dst']),
-                                   source=CPXTarget(u['src']), data=bytes(u['data']))
-                    pk.lastPacket = u['last']
+                    pk = build_cpx(u)
+                    if bytes(pk.wireData) != cpx_frame(u):
+                        ctx.violation('1', 'packet-encoding-differs', 'packet built by %s: wire data %s, expected %s'
+                                      % (u.get('build', 'ctor'), bytes(pk.wireData).hex(), cpx_frame(u).hex()))
                     cpx.sendPacket(pk)
                 run_senders(plan['up'], send_cpx)
                 feeder.join(60.0 + stall_total)
@@ -240,10 +266,7 @@ def execute(ctx):
                     if u.get('via', 'crtp') == 'crtp':
                         drv.send_packet(CRTPPacket(u['header'], list(u['data'])))
                     else:
-                        pk = CPXPacket(function=CPXFunction(u['fn']), destination=CPXTarget(u['dst']),
-                                       source=CPXTarget(u['src']), data=bytes(u['data']))
-                        pk.lastPacket = u['last']
-                        drv.cpx.sendPacket(pk)
+                        drv.cpx.sendPacket(build_cpx(u))
                 run_senders(plan['up'], send_any)
                 want = sum(1 for p, ok in zip(down, legal) if ok and p['fn'] == 3 and len(p['data']) > 0)
                 t_end = sim.now + 30.0 + stall_total
@@ -286,9 +309,6 @@ def execute(ctx):
         i += 2 + ln
     if i != len(sent):
         ctx.violation('1', 'uplink-stream-not-framed', 'trailing %d bytes do not form a frame' % (len(sent) - i))
-    def cpx_frame(u):
-        return bytes([((u['src'] & 7) << 3) | (u['dst'] & 7) | (0x40 if u['last'] else 0), u['fn'] & 0x3F]) + bytes(u['data'])
-
     def crtp_frame(u):
         return bytes([(3 << 3) | 1, 3]) + bytes([u['header'] | 0x0C]) + bytes(u['data'])
 
